@@ -4,6 +4,7 @@ package sym
 
 import (
 	"fmt"
+	goparser "go/parser"
 	"go/types"
 	"os"
 	"reflect"
@@ -161,6 +162,30 @@ func EnvStubs(st map[string]StubFn) {
 	}
 	st["bytes.TrimSpace"] = func(r *Run, fr *frame, fn *ssa.Function, a []value) value {
 		return symBytes{UF("bytes.TrimSpace", SStr, strTermOf(bytesToStr(a[0])))}
+	}
+	// go/parser.ParseExpr on symbolic text: an arbitrary but consistent predicate of the text (the
+	// same value for the same text within a path); vrt.ParsesAsExpr is the harness's view of it
+	parsesAsExpr := func(r *Run, text value) bool {
+		if s, ok := text.(string); ok {
+			_, err := goparser.ParseExpr(s)
+			return err == nil
+		}
+		key := "parseexpr:" + toString(text)
+		v, ok := r.Env[key]
+		if !ok {
+			v = r.newInput(r.freshName("parses-as-expr"), SBool)
+			r.Env[key] = v
+		}
+		return r.branch(v)
+	}
+	st["go/parser.ParseExpr"] = func(r *Run, fr *frame, fn *ssa.Function, a []value) value {
+		if parsesAsExpr(r, a[0]) {
+			return tuple{iface{}, iface{}}
+		}
+		return tuple{iface{}, r.newError("<not a Go expression>")}
+	}
+	st[vrtPkg+"ParsesAsExpr"] = func(r *Run, fr *frame, fn *ssa.Function, a []value) value {
+		return parsesAsExpr(r, a[0])
 	}
 	st["os.Getenv"] = func(r *Run, fr *frame, fn *ssa.Function, a []value) value {
 		k, _ := a[0].(string)
